@@ -43,6 +43,26 @@ CLAIMED = {
         design_ref='DESIGN.md 4 C07',
         note=TRUST + 'Not claimed: IEEE rounding (e.g. int((x-xmin)/dx) one ulp inside a cell edge). Bounds: degrees 1-5 (thorough '
                      '1-10), listed rational knot families, cells <= 8, 2-D degrees <= 5.'),
+    'C08': dict(
+        category='proof',
+        technique='concolic symbolic execution of the real interpolator classes on exact z3 Real data; LAPACK/SuperLU by contract; z3 linear/polynomial queries',
+        text='Bounded solver proof in exact reals for all data vectors/matrices: the real SplineInterpolator1D/2D code (collocation '
+             'matrix, band packing, bandwidths, periodic wrap, two-sweep tensor solve) runs on symbolic data; the banded/sparse '
+             'factorisation is replaced by its contract on the matrix unpacked by LAPACK\'s documented band layout; z3 shows the '
+             'interpolant evaluated by the real kernels equals the data at every interpolation point, wrapped coefficients are '
+             'consistent, and on clamped spaces every polynomial of degree <= p is reproduced (value and slope) for all x.',
+        design_ref='DESIGN.md 4 C08',
+        note=TRUST + 'Trusted: solve contract (elimination itself), exact Gaussian elimination in Q of lib/numenv. Not claimed: '
+                     'conditioning/rounding. Complex data covered through the zgbtrf code path with real proxies plus linearity.'),
+    'C09': dict(
+        category='proof',
+        technique='concolic symbolic execution of the real quadrature/integral code on exact proxies with symbolic data; z3 linear queries against an independent exact integration oracle',
+        text='Bounded solver proof in exact reals: for all data u, sum_i w_i u_i equals the exact integral of the interpolant '
+             '(coefficients from the real compute_interpolant, basis integrals from an independent piecewise-polynomial integration '
+             'in Q); weights sum to the domain length; equal on uniform periodic spaces; stored basis integrals equal the true '
+             'integrals (per periodic basis function on periodic spaces). Counter-models replayed on the float code.',
+        design_ref='DESIGN.md 4 C09',
+        note=TRUST + 'Bounds: degrees 1-5 (thorough 1-6), listed knot families, cells <= 8, uniform-cubic fast path. Solver contracts as C08.'),
     'C20': dict(
         category='proof',
         technique='concolic symbolic execution of the real Python function on z3 Int proxies; per-path SMT queries (bounded)',
